@@ -341,6 +341,34 @@ pub fn build_cases(p: P, tier: &str, seed: u64, pools: &Pools) -> Vec<Case> {
             push(&mut cases, &mut rng, (i + j) % nkeys, content.clone(), Some(f.clone()), a, "content");
         }
     }
+    // (b2) inputs that are RELATED to each other: nonce == key, footer == assertion == message, message contains the key, all equal
+    if p.is_local() {
+        for ki in 0..nkeys.min(6) {
+            let key = pools.key(p, ki);
+            let keyhex = util::hex(&key.sym);
+            let same = "same-string-everywhere".to_string();
+            let variants: Vec<(Vec<u8>, String, Option<String>, Option<String>)> = vec![
+                (key.sym.to_vec(), "nonce equals key".to_string(), None, None),
+                (key.sym.to_vec(), keyhex.clone(), Some(keyhex.clone()), Some(keyhex.clone())),
+                (rng.bytes(32), same.clone(), Some(same.clone()), Some(same.clone())),
+                (vec![0u8; 32], String::new(), Some(String::new()), Some(String::new())),
+                (rng.bytes(32), keyhex.clone(), Some("f".into()), None),
+                (rng.bytes(32), "m".into(), Some(p.header()), Some(p.header())),
+            ];
+            for (nonce, msg, f, a) in variants {
+                let a = if p.has_assertion() { a } else { None };
+                let nonce = if p == P::V2L && nonce.len() == 32 && ki % 2 == 0 { nonce[..24].to_vec() } else { nonce };
+                cases.push(Case { p, layer: Layer::Core, key: key.clone(), nonce, msg, footer: f, ia: a, claims: vec![], class: "related-inputs".into() });
+            }
+        }
+    } else {
+        let key = pools.key(p, 0);
+        let pkhex = util::hex(&key.pk);
+        for (msg, f, a) in [(pkhex.clone(), Some(pkhex.clone()), Some(pkhex.clone())), ("x".to_string(), Some("x".to_string()), Some("x".to_string())), (p.header(), Some(p.header()), None)] {
+            let a = if p.has_assertion() { a } else { None };
+            cases.push(Case { p, layer: Layer::Core, key: key.clone(), nonce: rng.bytes(32), msg, footer: f, ia: a, claims: vec![], class: "related-inputs".into() });
+        }
+    }
     // (c) big messages
     let mut bigs: Vec<usize> = gens::BIG_LENGTHS.to_vec();
     if thorough {
